@@ -30,7 +30,7 @@ FUNC_NAMES = {"ADDITION": 1, "SUBTRACTION": 2, "MULTIPLICATION": 3, "EQUALITY": 
               "MAXIMUM": 13, "PRESENCE": 14, "UPPER_BOUND": 15, "LOWER_BOUND": 16}
 EXPR_KEYS = ("constant", "constant_reference", "function", "field_reference", "boolean_constant",
              "builtin_reference")
-ATTR_KINDS = {"is_signed": "signed", "is_integer": "isint", "requires": "bool", "static_requirements": "bool",
+ATTR_KINDS = {"is_signed": "boolconst", "is_integer": "boolconst", "requires": "bool", "static_requirements": "bool",
               "addressable_unit_size": "int", "maximum_bits": "int", "fixed_size_in_bits": "int",
               "byte_order": "strlist", "text_output": "strlist", "expected_back_ends": "backends"}
 STR_VALUES = {"byte_order": {"BigEndian", "LittleEndian", "Null"}, "text_output": {"Emit", "Skip"}}
@@ -50,6 +50,9 @@ MESSAGES = [
     (r"^If-true clause of operator '\?:' must be an integer, boolean, or enum\.$", lambda m: "chTrue"),
     (r"^The if-true and if-false clauses of operator '\?:' must have the same type\.$", lambda m: "chSame"),
     (r"^Static references to physical fields are not allowed\.$", lambda m: "staticPhys"),
+    (r"^Static references must refer to enum values or virtual fields\.$", lambda m: "staticOther"),
+    (r"^Keyword `.*` may not be used in this context\.$", lambda m: "builtinCtx"),
+    (r"^Enum value must be an integer\.$", lambda m: "posEnumValue"),
     (r"^Start of field must be an integer\.$", lambda m: "posStart"),
     (r"^Size of field must be an integer\.$", lambda m: "posSize"),
     (r"^Array size must be an integer\.$", lambda m: "posArray"),
@@ -62,21 +65,17 @@ MESSAGES = [
     (r"^Attribute '.*' must have a constant boolean value\.$", lambda m: "attrConstBool"),
     (r"^Attribute '.*' must have an integer value\.$", lambda m: "attrInt"),
     (r"^Attribute '.*' must have a constant value\.$", lambda m: "attrConst"),
+    (r"^Attribute '.*' must have a string value\.$", lambda m: "attrString"),
     (r"^Attribute '.*' must be '.*'\.$", lambda m: "attrStr"),
     (r"^Attribute '.*' must be a comma-delimited list of back end specifiers", lambda m: "attrStr"),
 ]
-PASS_OF = [("mustInt", 1), ("mustBool", 1), ("mustField", 1), ("arity", 1), ("cmp", 1), ("ch", 1), ("staticPhys", 1),
-           ("paramArray", 1), ("pos", 2), ("paramKind", 2), ("pass", 2), ("attr", 3)]
+PASS_OF = [("mustInt", 1), ("mustBool", 1), ("mustField", 1), ("arity", 1), ("cmp", 1), ("ch", 1), ("static", 1),
+           ("builtinCtx", 1), ("paramArray", 1), ("pos", 2), ("paramKind", 2), ("pass", 2), ("attr", 3)]
 CRASH_KEYS = {
-    "constRefOther": "crash:type_check.py:_type_check_constant_reference:AssertionError",
-    "arrayParamRef": "crash:type_check.py:_type_check_local_reference:AttributeError",
-    "passedTypeName": "crash:type_check.py:_type_name_for_error_messages:AssertionError",
-    "attrConstBoolExpr": "crash:attribute_util.py:_is_constant_boolean:AttributeError",
-    "attrBackEnds": "crash:attribute_checker.py:_valid_back_ends:AttributeError",
+    "paramTypeNone": "crash:type_check.py:_type_check_parameter:AttributeError",
+    "passedTypeNone": "crash:type_check.py:_type_name_for_error_messages:AttributeError",
+    "attrTypeNone": "crash:attribute_util.py:<validator>:AttributeError",
     "attrSignedNotLiteral": "crash:ir_util.py:get_attribute:AssertionError",
-    "cmpNone": "crash:type_check.py:_type_check_comparison_operator:AttributeError",
-    "chNone": "crash:type_check.py:_type_check_choice_operator:AttributeError",
-    "compatNone": "crash:type_check.py:_types_are_compatible:AttributeError",
 }
 K_BADFILE = "error-file-is-not-a-file-name:type_check._type_check_local_reference"
 K_ENUM_ORD = "enum-operands-to-ordering-comparison-accepted"
@@ -116,7 +115,8 @@ class Walker:
         self.ird = ird
         self.objs = {}       # (module_file, path tuple) -> (kind, node, module_file)
         self.locs = {}       # (file, locstr) -> id
-        self.enum_ids = {}
+        self.files = {}      # file name -> id
+        self.enum_ids = {}   # (module_file, object path) -> id: an enum is its definition, not its name
         self.size = 0
         for mod in ird["module"]:
             mf = mod.get("source_file_name", "")
@@ -137,6 +137,11 @@ class Walker:
             self.objs[self._cn(v)] = ("enumvalue", v, mf)
         for st in td.get("subtype", []):
             self._index_type(st, mf)
+
+    def fid(self, file):
+        if file not in self.files:
+            self.files[file] = len(self.files)
+        return self.files[file]
 
     def loc(self, file, node):
         s = node.get("source_location", "") if isinstance(node, dict) else str(node)
@@ -194,7 +199,7 @@ class Walker:
                 return "bi %s 1" % l
             if nm == "$static_size_in_bits":
                 return "bi %s 0" % l
-            raise Unmodelled("builtin " + nm)
+            return "bi %s 2" % l        # `$next` where synthetics did not replace it
         if "constant_reference" in e:
             key = self.ref_key(e["constant_reference"])
             kind, node, mf = self.objs.get(key, (None, None, None))
@@ -205,8 +210,8 @@ class Walker:
                 return "e %s %d" % (l, self.enum_ids[ek])
             if kind == "field":
                 if "read_transform" in node:
-                    return "cv %s %s" % (l, self.expr(node["read_transform"], mf))
-                return "cp %s %s" % (l, self.loc(mf, node))
+                    return "cv %s %d %s" % (l, self.fid(mf), self.expr(node["read_transform"], mf))
+                return "cp %s %d %s" % (l, self.fid(mf), self.loc(mf, node))
             return "co " + l
         if "field_reference" in e:
             path = e["field_reference"]["path"]
@@ -216,7 +221,7 @@ class Walker:
                 t = self.param_ty(node)
                 return ("la " + l) if t is None else "lp %s %s" % (l, t)
             if "read_transform" in node:
-                return "lv %s %s" % (l, self.expr(node["read_transform"], mf))
+                return "lv %s %d %s" % (l, self.fid(mf), self.expr(node["read_transform"], mf))
             ty = node.get("type", {})
             if "atomic_type" in ty:
                 return "lf %s %s" % (l, self.typedef_ty(self.ref_key(ty["atomic_type"]["reference"])))
@@ -248,7 +253,7 @@ class Walker:
         def top_exprs(x, file, under_array=False, under_atomic=False):
             """generic sweep: every top-level Expression below x, in document order."""
             if is_expr(x):
-                exprs.append(self.expr(x, file))
+                exprs.append("%d %s" % (self.fid(file), self.expr(x, file)))
                 return
             if isinstance(x, dict):
                 for k, v in x.items():
@@ -263,7 +268,7 @@ class Walker:
             """expressions below an ArrayType but not below an AtomicType."""
             if is_expr(t):
                 if inside:
-                    arrays.append(self.expr(t, file))
+                    arrays.append("%d %s" % (self.fid(file), self.expr(t, file)))
                 return
             if isinstance(t, dict):
                 for k, v in t.items():
@@ -290,10 +295,11 @@ class Walker:
                 exp = []
                 for p in td.get("runtime_parameter", []):
                     pt = self.param_ty(p)
-                    exp.append("%s %s" % (pt or "U", self.loc(mf, p)))
+                    exp.append("%s %s" % (pt or "N", self.loc(mf, p)))
                 given = [self.expr(g, file) for g in at.get("runtime_parameter", [])]
-                passed.append("%s %s %d %s %d %s" % (self.loc(file, at), self.loc(mf, td), len(exp), " ".join(exp),
-                                                      len(given), " ".join(given)))
+                passed.append("%d %s %d %s %d %s %d %s" % (self.fid(file), self.loc(file, at), self.fid(mf),
+                                                            self.loc(mf, td), len(exp), " ".join(exp),
+                                                            len(given), " ".join(given)))
             if "array_type" in t:
                 atomics(t["array_type"].get("base_type", {}), file)
 
@@ -306,10 +312,11 @@ class Walker:
                 if kind is None:
                     continue
                 v = a.get("value", {})
-                l = self.loc(file, v)
+                l = "%d %s" % (self.fid(file), self.loc(file, v))
+                kind = "%s %d" % (kind, 1 if nm == "is_signed" else 0)
                 if "string_constant" in v:
                     txt = v["string_constant"].get("text", "")
-                    if kind == "backends":
+                    if nm == "expected_back_ends":
                         ok = re.fullmatch(BACK_ENDS_RE, txt) is not None
                     else:
                         ok = txt in STR_VALUES.get(nm, ())
@@ -324,16 +331,17 @@ class Walker:
             for p in td.get("runtime_parameter", []):
                 pt = self.param_ty(p)
                 pl = self.loc(file, p["physical_type_alias"])
+                pl = "%d %s" % (self.fid(file), pl)
                 params.append("%s A" % pl if pt is None else "%s T %s" % (pl, pt))
                 arrays_under(p["physical_type_alias"], file, False)
                 atomics(p["physical_type_alias"], file)
             for f in td.get("structure", {}).get("field", []):
                 attrs(f.get("attribute", []), file, attrs_field)
                 if "location" in f:
-                    locations.append("%s %s" % (self.expr(f["location"]["start"], file),
-                                                self.expr(f["location"]["size"], file)))
+                    locations.append("%d %s %s" % (self.fid(file), self.expr(f["location"]["start"], file),
+                                                   self.expr(f["location"]["size"], file)))
                 if "existence_condition" in f:
-                    conds.append(self.expr(f["existence_condition"], file))
+                    conds.append("%d %s" % (self.fid(file), self.expr(f["existence_condition"], file)))
                 else:
                     raise Unmodelled("field without existence_condition")
                 if "type" in f:
@@ -341,7 +349,7 @@ class Walker:
                     atomics(f["type"], file)
             for v in td.get("enumeration", {}).get("value", []):
                 attrs(v.get("attribute", []), file, attrs_val)
-                values.append(self.expr(v["value"], file))
+                values.append("%d %s" % (self.fid(file), self.expr(v["value"], file)))
             for st in td.get("subtype", []):
                 walk_type(st, file)
 
@@ -356,7 +364,7 @@ class Walker:
         def sec(tag, items):
             return "%s %d %s" % (tag, len(items), " ".join(items))
         return "TYPE " + " ".join([sec("X", exprs), sec("P", params), sec("L", locations), sec("A", arrays),
-                                   sec("C", conds), sec("S", passed), sec("V", values), sec("T", allattrs)])
+                                   sec("C", conds), sec("V", values), sec("S", passed), sec("T", allattrs)])
 
 
 class Unmodelled(Exception):
@@ -379,7 +387,7 @@ def real_outcome(files, main="m.emb"):
         cls = classify_message(first.message.split("\n")[0])
         badfile = not isinstance(first.source_file, str)
         if badfile:
-            f = getattr(getattr(first.source_file, "canonical_name", None), "module_file", "?")
+            f = "<not a file name: %s>" % type(first.source_file).__name__
         else:
             f = first.source_file
         notes = [(n.source_file if isinstance(n.source_file, str) else "?", str(n.location)) for n in g[1:]]
@@ -406,8 +414,8 @@ def canon_real(out, w):
     if out["kind"] == "rejected":
         es = set()
         for g in out["groups"]:
-            s = "%s:%s%s" % (w.loc_of_str(g["file"], g["loc"]), g["cls"], ":badfile" if g["bad"] else "")
-            s += "".join("+" + w.loc_of_str(f, l) for f, l in g["notes"])
+            s = "%s@%d:%s" % (w.loc_of_str(g["file"], g["loc"]), w.fid(g["file"]), g["cls"])
+            s += "".join("+%s@%d" % (w.loc_of_str(f, l), w.fid(f)) for f, l in g["notes"])
             es.add(s)
         return "rejected %d %s" % (out["pass"], ";".join(sorted(es)))
     return "other"
@@ -440,16 +448,7 @@ def model_input(files, main="m.emb"):
 def oracle(case, out):
     """case: dict(text, expect='accept'|'reject', line, rule).  Returns (why, key) or None."""
     if out["kind"] == "crashed":
-        key = out["key"]
-        if key == "crash:attribute_util.py:_is_constant_boolean:AttributeError" and \
-                not case.get("rule", "").endswith("-string"):
-            # the open finding is about *expression* values; a string value crashing here again would
-            # be the regression of fix 3424c1b and must be reported
-            key += ":non-boolean-expression-value"
-        if case.get("rule", "").startswith("position:enum-value"):
-            # same defect: the value is never type-checked, then folded as an integer
-            key = K_ENUM_VALUE_BOOL if case["rule"].endswith(":bool") else K_ENUM_VALUE
-        return "uncaught exception %s" % out["exc"], key
+        return "uncaught exception %s" % out["exc"], out["key"]
     for g in out.get("groups", []):
         if g["bad"]:
             return ("an error message carries a non-string source_file (%s): it cannot be rendered "
@@ -463,7 +462,7 @@ def oracle(case, out):
         return None            # accepted, or rejected by a check outside C13 ('other')
     # expect reject
     groups = out.get("groups", [])
-    good = [g for g in groups if not g["syn"] and g["file"] == "m.emb"
+    good = [g for g in groups if not g["syn"] and g["file"] == case.get("file", "m.emb")
             and g["loc"].split(":")[0] == str(case["line"])]
     if out["kind"] == "other" and not good and not out.get("late"):
         return None     # stopped by an earlier, unrelated check: says nothing about typing
@@ -473,10 +472,8 @@ def oracle(case, out):
         rule = case.get("rule", "")
         if rule.startswith("comparison:") and rule.endswith(":enum-enum"):
             key = K_ENUM_ORD
-        elif rule.startswith("position:enum-value"):
-            key = K_ENUM_VALUE_BOOL if rule.endswith(":bool") else K_ENUM_VALUE
-        elif rule == "parameter:pass-other-enum":
-            key = K_PASS_ENUM
+        elif rule.startswith("position:enum-value") and rule.endswith(":enum"):
+            key = K_ENUM_VALUE
         return "module breaking rule %s on line %d was accepted by the typing passes" % (rule, case["line"]), key
     if not good:
         return ("rule %s broken on line %d but no non-synthetic error is located on that line: %s" % (
